@@ -172,7 +172,9 @@ func hexOrDash(b []byte) string {
 	return hex.EncodeToString(b)
 }
 
-func fieldOf(b []byte, mode os.FileMode) string { return fmt.Sprintf("%d:%s", int(mode.Perm()), hexOrDash(b)) }
+func fieldOf(b []byte, mode os.FileMode) string {
+	return fmt.Sprintf("%d:%s", int(mode.Perm()), hexOrDash(b))
+}
 
 func newField(b []byte) string {
 	if b == nil {
@@ -219,6 +221,7 @@ type c18Run struct {
 	Limit    int // -1: none
 	Strace   []string
 	AsNobody bool
+	Env      []string // additional environment of the command
 }
 
 func (c *Ctx) c18Exec(rn c18Run) procResult {
@@ -244,7 +247,7 @@ func (c *Ctx) c18Exec(rn c18Run) procResult {
 	self, _ := os.Executable()
 	var bin string
 	var args []string
-	env := []string{}
+	env := append([]string{}, rn.Env...)
 	switch {
 	case len(rn.Strace) > 0:
 		bin = "strace"
@@ -771,12 +774,12 @@ func (c *Ctx) c18Multi() {
 	scratch := filepath.Join(c.WorkDir, "render")
 	bt := c.NewBatch()
 	defer bt.Flush()
-	for i := 0; i < n; i++ {
-		i := i
-		if !c.Want("multi", i) {
-			continue
+	// one case: the files of case number gen of the multi stream, under its own limit (limitSel == -2) or a given one
+	runCase := func(stream string, i, gen, limitSel int) {
+		if !c.Want(stream, i) {
+			return
 		}
-		r := c.Rng("multi", i)
+		r := c.Rng("multi", gen)
 		nf := r.Range(2, 6)
 		var fs []c18File
 		files := map[string][]byte{}
@@ -817,10 +820,29 @@ func (c *Ctx) c18Multi() {
 				limit = 0
 			}
 		}
+		// half of the cases on one processor: the files are then formatted one after the other, so whatever a failed
+		// write leaves behind in the process meets the next file; limits between the mean of two sizes and the larger one
+		// let the larger file fail and a smaller one pass
+		var env []string
+		if r.Chance(1, 2) {
+			env = []string{"GOMAXPROCS=1"}
+			if limit >= 0 && r.Chance(1, 2) {
+				a, b := len(fs[r.Intn(nf)].New), len(fs[r.Intn(nf)].New)
+				if a < b {
+					a, b = b, a
+				}
+				if a > b {
+					limit = (a+b)/2 + r.Intn(a-(a+b)/2)
+				}
+			}
+		}
+		if limitSel != -2 {
+			limit = limitSel
+		}
 		dir := filepath.Join(c.WorkDir, "multi")
-		pr := c.c18Exec(c18Run{Dir: dir, Files: files, Modes: modes, Argv: argv, Limit: limit})
+		pr := c.c18Exec(c18Run{Dir: dir, Files: files, Modes: modes, Argv: argv, Limit: limit, Env: env})
 		c.Evals++
-		in := map[string]any{"argv": argv, "RLIMIT_FSIZE": limit, "kinds": func() []string {
+		in := map[string]any{"argv": argv, "RLIMIT_FSIZE": limit, "env": env, "kinds": func() []string {
 			var ks []string
 			for _, f := range fs {
 				ks = append(ks, f.Kind)
@@ -833,10 +855,10 @@ func (c *Ctx) c18Multi() {
 			}
 			return m
 		}()}
-		if !c.Monitor("multi", i, "terminates", in, !pr.Timeout, "timeout") {
-			continue
+		if !c.Monitor(stream, i, "terminates", in, !pr.Timeout, "timeout") {
+			return
 		}
-		c.Class(fmt.Sprintf("multi/n%d/bad%v/limit%v/exit%v", nf, hasBad, limit >= 0, pr.Exit == 0))
+		c.Class(fmt.Sprintf(stream+"/n%d/bad%v/limit%v/exit%v", nf, hasBad, limit >= 0, pr.Exit == 0))
 		if i < 2 {
 			c.Sample(map[string]any{"stream": "multi", "argv": argv, "RLIMIT_FSIZE": limit, "exit": pr.Exit, "stderr": clip(pr.Stderr)})
 		}
@@ -873,7 +895,7 @@ func (c *Ctx) c18Multi() {
 				}
 				modelParts = append(modelParts, fl[len(fl)-2])
 			}
-			c.Compare("multi", i, "c18multi", in, fmt.Sprintf("exit-ok=%v %s", allOK, strings.Join(implParts, " ")), fmt.Sprintf("exit-ok=%v %s", modelOK, strings.Join(modelParts, " ")))
+			c.Compare(stream, i, "c18multi", in, fmt.Sprintf("exit-ok=%v %s", allOK, strings.Join(implParts, " ")), fmt.Sprintf("exit-ok=%v %s", modelOK, strings.Join(modelParts, " ")))
 		}, "c18multi", strings.Join(jobs, ","))
 		for k, f := range fs {
 			status := "-"
@@ -883,12 +905,90 @@ func (c *Ctx) c18Multi() {
 			old, nw, obs := fieldOf(f.Old, f.Mode), newField(f.New), implParts[k]
 			name := f.Name
 			bt.Add(func(mon string) {
-				c.Monitor("multi", i, "C18 allOrNothing per file / C18_files_independent", in, mon == "ok",
+				c.Monitor(stream, i, "C18 allOrNothing per file / C18_files_independent", in, mon == "ok",
 					fmt.Sprintf("%s: file %s exit=%d old=%s new=%s observed=%s", mon, name, pr.Exit, clip(old), clip(nw), clip(obs)))
 			}, "c18mon", old, nw, obs, status)
 		}
-		c.Monitor("multi", i, "no stray file", in, len(strays) == 0, strings.Join(strays, ","))
+		c.Monitor(stream, i, "no stray file", in, len(strays) == 0, strings.Join(strays, ","))
 	}
+	if !c.Replay || c.OnlyStr == "multi" {
+		for i := 0; i < n; i++ {
+			runCase("multi", i, i, -2)
+		}
+		bt.Flush()
+	}
+	// directed search: the file sets on which code and model (or the predicate) disagree, under every interesting limit:
+	// around each file's new size, around sums of two sizes (a write that carries more than its own file), and none
+	var suspects []int
+	seen := map[int]bool{}
+	if c.Replay && c.OnlyStr == "multi-directed" {
+		suspects = []int{c.OnlyIndex / 1000}
+	} else if !c.Replay {
+		for _, f := range c.Findings {
+			if f.Stream == "multi" && !seen[f.Index] && len(suspects) < 6 {
+				seen[f.Index] = true
+				suspects = append(suspects, f.Index)
+			}
+		}
+	}
+	for _, gen := range suspects {
+		sizes := c18MultiSizes(c, gen, scratch)
+		set := map[int]bool{-1: true}
+		for _, a := range sizes {
+			for d := -2; d <= 2; d++ {
+				set[a+d] = true
+			}
+			for _, b := range sizes {
+				set[a+b] = true
+				set[a+b+1] = true
+				set[a+b/2] = true
+				set[(a+b)/2] = true
+				set[(a+b)/2+1] = true
+				set[(3*a+b)/4] = true
+			}
+			set[2*a+64] = true
+		}
+		var ls []int
+		for l := range set {
+			if l >= -1 {
+				ls = append(ls, l)
+			}
+		}
+		sort.Ints(ls)
+		for k, l := range ls {
+			if k >= 1000 {
+				break
+			}
+			runCase("multi-directed", gen*1000+k, gen, l)
+		}
+	}
+	if len(suspects) > 0 && !c.Replay {
+		c.Notes = append(c.Notes, fmt.Sprintf("directed search: %d file sets of the multi stream on which code and model differ, each under every size limit around the files' sizes and their pairwise sums", len(suspects)))
+	}
+}
+
+// c18MultiSizes: the sizes of the formatted files of case gen of the multi stream
+func c18MultiSizes(c *Ctx, gen int, scratch string) []int {
+	r := c.Rng("multi", gen)
+	nf := r.Range(2, 6)
+	var res []int
+	hasBad := false
+	for k := 0; k < nf; k++ {
+		kind := Pick(r, []string{"plain", "plain", "big", "formatted", "parse-error", "empty"})
+		if k == nf-1 && !hasBad && r.Chance(3, 4) {
+			kind = "parse-error"
+		}
+		if kind == "parse-error" {
+			hasBad = true
+		}
+		f := c.c18GenFile(r, scratch, fmt.Sprintf("j%d.knut", k), kind)
+		f.Old = append(f.Old, []byte(fmt.Sprintf("\n# file %d\n", k))...)
+		f.New = c.c18Render(scratch, func(t string) []string { return []string{"format", t} }, f.Name, f.Old, nil)
+		if f.New != nil {
+			res = append(res, len(f.New))
+		}
+	}
+	return res
 }
 
 // ---------------------------------------------------------------- facts stream
@@ -1004,7 +1104,7 @@ func runC18(c *Ctx) {
 		f    func()
 	}{{"facts", c.c18Facts}, {"limit", c.c18Limit}, {"inject", c.c18InjectStream}, {"perm", c.c18Perm}, {"permlimit", c.c18PermLimit}, {"multi", c.c18Multi}}
 	for _, s := range streams {
-		if c.Replay && c.OnlyStr != s.name && !(s.name == "limit" && c.OnlyStr == "limit-directed") {
+		if c.Replay && c.OnlyStr != s.name && !(s.name == "limit" && c.OnlyStr == "limit-directed") && !(s.name == "multi" && c.OnlyStr == "multi-directed") {
 			continue
 		}
 		t0 := time.Now()
